@@ -133,6 +133,7 @@ impl<C: Config> Engine<C> {
         // batch of the computations that ran before this session, and leaves
         // nothing to clean up if this future is dropped while it waits.
         crate::verif_point!("phase:w:req", None, 0);
+        crate::verif_pause!("is.wait", None);
 
         let guard = self
             .computation_graph
